@@ -50,10 +50,8 @@ def generate(ck, tier):
     # a partially reliable channel next to the reliable one (abandonment, FORWARD-TSN): liveness of the
     # reliable channel + single faults, FORWARD-TSN included
     p3 = os.path.join(ck.dir, f"sched_pr_{tier}_{os.getpid()}.ndjson")
-    res3 = sc.tlc_mc(ck, "fifo_pr", mode="fifo", budget=1, fair=True, chans="ChansPR", msgs="MsgsTwoCh3",
-                     init_a="{14}", init_b="{0}", win=3, sched_sink=p3, timeout=900)
-    vlib.tlc_ok(res3, "fifo rel+pr budget 1")
-    ck.add_tlc(res3, "fifo/rel+pr budget1 (liveness + single faults)")
+    sc.tlc_mc_split(ck, "fifo_pr", "fifo/rel+pr budget1", p3, mode="fifo", budget=1, chans="ChansPR", msgs="MsgsTwoCh3",
+                    init_a="{14}", init_b="{0}", win=3, timeout=900)
     mixed = sc.schedules_from(p3)
     if tier == "thorough":
         p4 = os.path.join(ck.dir, f"sched_pr2_{tier}_{os.getpid()}.ndjson")
